@@ -27,9 +27,9 @@ PY
 rm -f /tmp/confirm-$$.json
 cp "$DEMO" "$PKG/zz_demo_test.go"
 echo "--- demo WITH change:"
-go test ${DEMO_TAGS:-} -vet=off -count=1 -run "$RUN" "./$PKG/" 2>&1 | grep -v '^{"level"' | tail -5
+go test ${DEMO_TAGS:-} ${DEMO_FLAGS:-} -vet=off -count=1 -run "$RUN" "./$PKG/" 2>&1 | grep -v '^{"level"' | tail -5
 git apply -R "$OUT/patch.diff"
 echo "--- demo WITHOUT change:"
-go test ${DEMO_TAGS:-} -vet=off -count=1 -run "$RUN" "./$PKG/" 2>&1 | grep -v '^{"level"' | tail -3
+go test ${DEMO_TAGS:-} ${DEMO_FLAGS:-} -vet=off -count=1 -run "$RUN" "./$PKG/" 2>&1 | grep -v '^{"level"' | tail -3
 rm -f "$PKG/zz_demo_test.go"
 git checkout -q -- . ; git clean -fdq
